@@ -331,6 +331,7 @@ def classify(toks, opts, scripting, exp=None, act=None):
                 return "noscript-content-depends-on-reader-scripting"
         if stack and stack[-1][0] not in HTML and stack[-1][1] in RAW and i < len(toks) and \
                 toks[i]["type"] == "Characters" and not opts.get("escape_rcdata"):
+            # REPAIRED by COMMIT_A (no longer a known class: a VIOLATION if it comes back; kept so that a regression is labelled):
             # text of a FOREIGN style/script/... written raw: escaping it (escape_rcdata) makes the same stream read back
             if passes(toks, dict(opts, escape_rcdata=True), scripting):
                 return "foreign-rawtext-by-bare-name"
@@ -381,10 +382,37 @@ def classify_features(toks, opts, scripting):
     return "lexical-differs"
 
 
+# regression inputs of the repaired finding C08-foreign-raw (COMMIT_A): the old witness and variants.  Its class is no longer
+# a known finding: an input of this list that does not read back is a VIOLATION.
+REGRESSION_HTML = ["<svg><style>&lt;b&gt;</style></svg>", "<svg><script>a&lt;b&amp;c</script></svg>", "<math><xmp>&lt;i&gt;x</xmp></math>",
+                   "<svg><style>&lt;/style&gt;&lt;img src=x onerror=alert(1)&gt;</style></svg>", "<svg><title>&lt;b&gt;</title></svg>",
+                   "<svg><style>x</style><p>&lt;y&gt;</p></svg>", "<style>a&lt;b</style><svg><style>c&lt;d</style></svg>",
+                   "<math><noscript>&lt;&amp;</noscript><iframe>&lt;i&gt;</iframe></math>"]
+
+
+def regressions(ctx, reqs, reals, ocases):
+    for text in REGRESSION_HTML:
+        for kind in ("etree", "dom"):
+            toks = gen.walk_real(gen.parse_real(text, tb=kind, fragment="div", full=True), kind)
+            for opts in ({}, {"quote_attr_values": "always", "quote_char": "'"}, {"quote_attr_values": "spec", "escape_lt_in_attrs": True}):
+                opts = dict(opts, omit_optional_tags=False)
+                out, errs = real_ser(toks, opts)
+                reqs.append("ser %s %s" % (lexical.opts_word(opts), wire.enc_toks(toks)))
+                reals.append("ok %s %s" % (wire.enc_str(out), wire.enc_list(wire.enc_str(e) for e in errs)))
+                ctx.case("ser", reqs[-1], nontrivial=True)
+                ctx.count("regression-COMMIT_A")
+                if errs:
+                    ctx.fail("regression-input-reports-an-error", "a regression input of the repaired finding is now reported as an error",
+                             {"input": text, "options": opts, "errors": errs})
+                else:
+                    ocases.append((toks, opts, True, text))
+
+
 def run(ctx):
     sys.path.insert(0, lean.VERIF + "/tools")
     reqs, reals = [], []
     ocases = []
+    regressions(ctx, reqs, reals, ocases)
     n = ctx.scale(1500, 40000)
     for i in range(n):
         text = gen.soup(ctx.rng)
